@@ -52,7 +52,7 @@ def paths(node, pre=()):
 def delete(case, p):
     c = copy.deepcopy(case); n = c
     for k in p[:-1]: n = n[k]
-    if isinstance(n, dict) and p[-1] in ("schema", "ch", "plan", "pool", "runs", "f", "name", "rep", "kind", "leaf", "type"): return None
+    if isinstance(n, dict) and p[-1] in ("schema", "ch", "plan", "pool", "runs", "f", "name", "rep", "kind", "leaf", "type", "map", "from", "target"): return None
     if isinstance(n, list) and len(p) >= 2 and p[-2] in ("ch", "f", "pool"): return None
     try:
         del n[p[-1]]
